@@ -11,7 +11,8 @@ SHARD = 20
 RULE = ("mutable types x histories with copy() taken at random points (copies are held views: compared with the model "
         "after every command) and get_backing() snapshots taken before every command; at the end every snapshot node is "
         "re-read (root recomputed from scratch by walking the tree, encoding through a fresh view, child identity) and "
-        "must equal what it was when taken; non-trivial = >= 2 mutations after the first snapshot")
+        "must equal what it was when taken — also after summarize_into / setter / getter calls made directly on the final, "
+        "hashed backing; non-trivial = >= 2 mutations after the first snapshot")
 
 
 def gen_inputs(ctx):
@@ -56,6 +57,32 @@ def build(inp):
             sh.run(cmd)
         except Exception:
             pass
+    # the tree API itself (model-free): summaries and writes made FROM an already hashed backing that other holders share
+    # return new trees and leave the receiver as it was
+    try:
+        from remerkleable.tree import RootNode, zero_node
+        top = sh.views[0]
+        if hasattr(top, "_backing"):
+            nd = top.get_backing()
+            snaps.append((len(inp["cmds"]), 0, sh.types[0], nd, bytes(nd.merkle_root()), fresh_root(nd), shape(nd),
+                          attempt(lambda: bytes(T(sh.types[0]).view_from_backing(nd).encode_bytes()), anyerr=True)))
+            pos, frontier = [], [(1, nd)]
+            for _ in range(6):
+                nxt = []
+                for g, n_ in frontier:
+                    if not n_.is_leaf():
+                        nxt += [(2 * g, n_.get_left()), (2 * g + 1, n_.get_right())]
+                pos += [g for g, _ in nxt]
+                frontier = nxt[:16]
+            seedv = len(json.dumps(inp["cmds"]))
+            for j in range(min(len(pos), 8)):
+                g = pos[(seedv * 7 + j * 5) % len(pos)]
+                attempt(lambda: nd.summarize_into(g)(), anyerr=True)
+                attempt(lambda: nd.setter(g)(RootNode(b"\x11" * 32)), anyerr=True)
+                attempt(lambda: nd.setter(g, True)(zero_node(0)), anyerr=True)
+                attempt(lambda: nd.getter(g).merkle_root(), anyerr=True)
+    except Exception:  # noqa
+        pass
     for (k, vi, ty, nd, r0, fr0, sh0, enc0) in snaps:
         if bytes(nd.merkle_root()) != r0 or fresh_root(nd) != fr0:
             c.why = "snapshot of view %d taken before command %d changed its root" % (vi, k + 1)
